@@ -103,8 +103,15 @@ def h3_diff_as_comparison(ctx, tk, rule, funcs):
             for e in _exprs(n):
                 tm = fa.term(e, n)
                 for x in walk(tm):
-                    if x.k == "cmp" and x.a[0] in ("!=", "==", ">", "<") and id(x.node) not in seen:
+                    if x.k == "cmp" and x.a[0] in ("!=", "==", ">", "<", ">=", "<=") and id(x.node) not in seen:
                         for side, other in ((x.a[1], x.a[2]), (x.a[2], x.a[1])):
+                            for _ in range(3):
+                                if side.k == "call" and side.a[0].k == "attr" and side.a[0].a[1] in ("ravel", "flatten") and not side.a[1]:
+                                    side = side.a[0].a[0]
+                                elif side.k == "sub":
+                                    side = side.a[0]
+                            if x.a[0] in (">=", "<=") and index_typed(side.a[1][0] if (side.k == "call" and side.a[1]) else side):
+                                continue
                             if np_call(side, {"diff", "ediff1d"}) and is_const(other, 0):
                                 seen.add(id(x.node))
                                 ctx.violated(rule, f, "neighbouring elements are compared with == / !=, not through their arithmetic difference",
@@ -320,6 +327,41 @@ def h9_negative_param_slice_bound(ctx, tk, rule, funcs):
                                          "`%s`: for %s == 0 the bound is -0 == 0 and the slice is empty instead of complete" % (x, p), node=x.node, engine="KB")
 
 
+def h9b_negative_width_slice_start(ctx, tk, rule, funcs):
+    """x[..., -w:] addresses the last w columns - except for w == 0, where -0 == 0 addresses *all* columns.  A width taken from
+    the data (a .shape[k], len(..) or .size of an operand) may be 0 unless a test excludes it"""
+    for f in funcs:
+        fa = ctx.fa(f)
+        seen = set()
+        for n in fa.cfg.stmts():
+            for e in _exprs(n):
+                for sl in ast.walk(e):
+                    if not (isinstance(sl, ast.Slice) and isinstance(sl.lower, ast.UnaryOp) and isinstance(sl.lower.op, ast.USub) and sl.upper is None):
+                        continue
+                    if id(sl) in seen:
+                        continue
+                    seen.add(id(sl))
+                    w = fa.term(sl.lower.operand, n)
+                    from_data = any((x.k == "sub" and x.a[0].k == "attr" and x.a[0].a[1] == "shape") or (x.k == "attr" and x.a[1] == "size") or
+                                    (x.k == "call" and call_name(x) == "len") for a in alts(w) for x in walk(a))
+                    if not from_data:
+                        continue
+                    names = {y.id for y in ast.walk(sl.lower.operand) if isinstance(y, ast.Name)}
+                    guarded = False
+                    def is_w(y):
+                        return isinstance(y, ast.Name) and y.id in names
+                    for t, truth, test in facts_at(fa, n):
+                        for y in ast.walk(test.ast):
+                            if isinstance(y, ast.Compare) and len(y.ops) == 1 and ((is_w(y.left) and isinstance(y.comparators[0], ast.Constant) and y.comparators[0].value in (0, 1)) or
+                                                                                   (is_w(y.comparators[0]) and isinstance(y.left, ast.Constant) and y.left.value in (0, 1))):
+                                guarded = True
+                        if is_w(test.ast) or (isinstance(test.ast, ast.UnaryOp) and is_w(test.ast.operand)):
+                            guarded = True
+                    ctx.decide(rule, f, "a block addressed by its width from the right handles the width 0", True if guarded else False,
+                               "`%s`: for a width of 0 the start -0 == 0 addresses the whole row instead of nothing (a block without columns cannot be placed)" % ast.unparse(sl),
+                               node=sl, engine="KB")
+
+
 def h10_counting_scatter(ctx, tk, rule, funcs):
     """X = zeros(...); X[boundaries of all rows] = const; cumsum(X): rows sharing a boundary are counted once"""
     from .layout import boundary_index
@@ -527,6 +569,68 @@ def h18_cross_operand_store(ctx, tk, rule, funcs):
                              "wide integers wrap where numpy's own function promotes" % (ast.unparse(n.ast), ", ".join(extra), ", ".join(pb), a), node=n.ast, engine="KB")
 
 
+def h18b_blocks_into_first_operands_type(ctx, tk, rule, funcs):
+    """ret = np.zeros_like(<one operand>, shape=...) / np.zeros(.., dtype=<one operand>.dtype); for a in <all operands>: ret[..] = a
+    casts every block to the element type of that one operand, where np.concatenate promotes to the common type (an int block
+    first truncates the float blocks after it)"""
+    for f in funcs:
+        if not any(isinstance(x, (ast.For, ast.comprehension)) for x in ast.walk(f.node)):
+            continue
+        fa = ctx.fa(f)
+        for loop in ast.walk(f.node):
+            if not isinstance(loop, ast.For):
+                continue
+            loopvars = {x.id for x in ast.walk(loop.target) if isinstance(x, ast.Name)}
+            for st in ast.walk(loop):
+                if not (isinstance(st, ast.Assign) and len(st.targets) == 1 and isinstance(st.targets[0], ast.Subscript) and isinstance(st.targets[0].value, ast.Name)
+                        and isinstance(st.value, ast.Name) and st.value.id in loopvars):
+                    continue
+                n = fa.node_of(st)
+                if n is None:
+                    continue
+                buf = fa.term(st.targets[0].value, n)
+                for a in alts(buf):
+                    b = a
+                    while b.k in ("upd", "sub"):
+                        b = b.a[0]
+                    nm = np_call(b, {"zeros_like", "empty_like", "ones_like", "full_like", "zeros", "empty", "ones", "full"})
+                    if not nm:
+                        continue
+                    kw = dict(b.a[2])
+                    src = None
+                    if nm.endswith("_like") and "dtype" not in kw and b.a[1]:
+                        src = b.a[1][0]
+                    elif "dtype" in kw and kw["dtype"].k == "attr" and kw["dtype"].a[1] == "dtype":
+                        src = kw["dtype"].a[0]
+                    if src is None or any(x.k == "call" and (attr_chain(x.a[0]) or ("",))[-1] in ("result_type", "promote_types", "common_type") for x in walk(b)):
+                        continue
+                    # the typing operand is a single object (self.x / one parameter / element 0), the stored blocks range over a collection
+                    single = src.k in ("attr", "param") or (src.k == "sub" and is_const(src.a[1], 0))
+                    if single:
+                        ctx.violated(rule, f, "a result assembled from several blocks has their common element type",
+                                     "`%s` stores every block into `%s`, typed by `%s` alone: blocks of a wider type are cast down (float blocks after an int block are truncated) "
+                                     "where np.concatenate promotes" % (ast.unparse(st), b, src), node=st, engine="KB")
+                        break
+
+
+def h18c_typed_by_the_first_operand(ctx, tk, rule, funcs):
+    """f(<all operands>, dtype=operands[0].dtype): the result of joining several operands has their common element type; taking
+    the first operand's type casts the others down (int first, float second: the floats are truncated)"""
+    for f in funcs:
+        for x in ast.walk(f.node):
+            if not isinstance(x, ast.Call):
+                continue
+            for kw in x.keywords:
+                v = kw.value
+                if kw.arg == "dtype" and isinstance(v, ast.Attribute) and v.attr in ("dtype", "_dtype") and isinstance(v.value, ast.Subscript) \
+                        and isinstance(v.value.value, ast.Name) and v.value.value.id in f.params and isinstance(v.value.slice, ast.Constant) and v.value.slice.value in (0, -1):
+                    coll = v.value.value.id
+                    uses_all = any(isinstance(y, ast.Name) and y.id == coll and not (isinstance(getattr(y, "_parent", None), ast.Subscript)) for a in x.args for y in ast.walk(a))
+                    if uses_all:
+                        ctx.violated(rule, f, "a result joining several operands has their common element type",
+                                     "`%s` types the result by `%s` alone although it is built from all of `%s`" % (ast.unparse(x)[:120], ast.unparse(v), coll), node=x, engine="KB")
+
+
 def h19_raw_identity_store(ctx, tk, rule, funcs):
     """`ufunc.identity` is a Python scalar (-1 for bitwise_and, True for logical_and, 0, 1): written into an array of
     the data's dtype it must be converted first - numpy refuses an out-of-range Python integer on assignment
@@ -718,6 +822,22 @@ def h25_totals_equality_fast_path(ctx, tk, rule, funcs):
             parts = []
             _split_and(fa.term(n.ast, n), parts)
             hit = None
+            # one extremum equal to a constant says nothing about the other end: max(lengths) == 1 also holds for lengths (1, 0, 1)
+            ext = []
+            for t in parts:
+                if t.k == "cmp" and t.a[0] == "==":
+                    for l, r in ((t.a[1], t.a[2]), (t.a[2], t.a[1])):
+                        nm = (attr_chain(l.a[0]) or ("",))[-1] if l.k == "call" else None
+                        if nm in ("max", "amax", "min", "amin") and r.k == "const" and isinstance(r.a[0], int) and not isinstance(r.a[0], bool):
+                            ext.append((nm.lstrip("a"), r.a[0], t))
+            kinds = {k for k, _, _ in ext}
+            for k, c, t in ext:
+                if len(kinds) == 2:
+                    break
+                if k == "max" and c == 0:
+                    continue            # counts / lengths are non-negative: a maximum of 0 makes all of them 0
+                ctx.violated(rule, f, "a shortcut is selected by a per-element check, not by one extremum",
+                             "`%s` fixes one end of the range only: the other elements may still differ (lengths (1, 0, 1) have maximum 1, too)" % (t,), node=n.ast, engine="KB")
             for t in parts:
                 if not (t.k == "cmp" and t.a[0] == "==" and _total(t.a[1]) and _total(t.a[2])):
                     continue
@@ -1192,6 +1312,380 @@ def h38_no_cells_is_not_no_rows(ctx, tk, rule, funcs):
                                  ast.unparse(v), cells[0]), node=r.ast, engine="KB")
 
 
+def h39_exclusive_stop_clamped_like_a_position(ctx, tk, rule, funcs):
+    """positions run to len - 1, exclusive stops to len: a parameter the repository itself names stop / stops / end / ends
+    that is re-bound to np.clip(.., .., len(x) - 1) / np.minimum(.., len(x) - 1) loses the last element of every window
+    that reaches the end"""
+    def upper_minus_one(call):
+        fn = call.func
+        name = fn.attr if isinstance(fn, ast.Attribute) else (fn.id if isinstance(fn, ast.Name) else None)
+        if name == "clip":
+            ups = call.args[2:3] + [k.value for k in call.keywords if k.arg in ("a_max", "max")]
+        elif name in ("minimum", "min"):
+            ups = call.args[1:2] if name == "minimum" else []
+        else:
+            return False
+        for u in ups:
+            if isinstance(u, ast.BinOp) and isinstance(u.op, ast.Sub) and isinstance(u.right, ast.Constant) and u.right.value == 1 and \
+                    any((isinstance(x, ast.Call) and isinstance(x.func, ast.Name) and x.func.id == "len") or (isinstance(x, ast.Attribute) and x.attr in ("size", "_size")) for x in ast.walk(u.left)):
+                return True
+        return False
+    for f in funcs:
+        stops = [p for p in f.params if p.rstrip("s").lower() in ("stop", "end") or p.lower().startswith(("stop", "end_", "ends"))]
+        if not stops:
+            continue
+        for st in ast.walk(f.node):
+            if not isinstance(st, ast.Assign):
+                continue
+            tg = [x.id for t in st.targets for x in ast.walk(t) if isinstance(x, ast.Name) and isinstance(x.ctx, ast.Store)]
+            hit = [p for p in stops if p in tg]
+            if not hit:
+                continue
+            calls = [x for x in ast.walk(st.value) if isinstance(x, ast.Call) and upper_minus_one(x)]
+            if not calls:
+                continue
+            # the clamp is applied to the stop itself (directly, or through a comprehension / generator over (start, stop))
+            c = calls[0]
+            src = [x.id for x in ast.walk(c.args[0]) if isinstance(x, ast.Name)] if c.args else []
+            loopvars = {}
+            for g in ast.walk(st.value):
+                if isinstance(g, ast.comprehension) and isinstance(g.target, ast.Name):
+                    loopvars[g.target.id] = [x.id for x in ast.walk(g.iter) if isinstance(x, ast.Name)]
+            reaches = any(p in src or any(p in loopvars.get(v, ()) for v in src) for p in hit)
+            if reaches:
+                ctx.violated(rule, f, "an exclusive stop may equal the length (only positions are clamped to length - 1)",
+                             "`%s` clamps the exclusive bound `%s` to the last *position*: a window that ends at the end of the array loses its last element" % (
+                                 ast.unparse(c), hit[0]), node=st, engine="KB")
+
+
+def h40_bit_pattern_equality(ctx, tk, rule, funcs):
+    """x.view(<unsigned type>) == y.view(<unsigned type>) compares representations: for floating-point data 0.0 and -0.0
+    differ although they are equal values (and NaNs with the same payload compare equal).  Value equality must be decided on
+    the values; reinterpretation is fine for integers and for XOR-style transport"""
+    from .guards import reachable_under
+    for f in funcs:
+        if not any(isinstance(x, ast.Attribute) and x.attr == "view" for x in ast.walk(f.node)):
+            continue
+        fa = ctx.fa(f)
+        subj = lambda t: (t.k == "attr" and t.a[1] == "dtype") or t.k == "param"
+        reach = None
+        for n in fa.cfg.stmts():
+            for e in _exprs(n):
+                for x in ast.walk(e):
+                    if not (isinstance(x, ast.Compare) and len(x.ops) == 1 and isinstance(x.ops[0], (ast.Eq, ast.NotEq))):
+                        continue
+                    tm = fa.term(x, n)
+                    if tm.k != "cmp":
+                        continue
+                    def reinterpreted(t):
+                        def bases(t, d=0):
+                            for a in alts(t):
+                                if a.k in ("sub", "upd") and d < 6:
+                                    yield from bases(a.a[0], d + 1)
+                                else:
+                                    yield a
+                        for a in [t]:
+                            for y in bases(a):
+                                if y.k == "call" and y.a[0].k == "attr" and y.a[0].a[1] == "view" and y.a[1]:
+                                    d = y.a[1][0]
+                                    c = attr_chain(d)
+                                    if (c and c[-1].startswith("uint")) or (d.k == "const" and isinstance(d.a[0], str) and d.a[0].lstrip("<>=|").startswith("u")) or d.k in ("fstr", "joined", "sub"):
+                                        return y
+                        return None
+                    y = reinterpreted(tm.a[1]) or reinterpreted(tm.a[2])
+                    if y is None:
+                        continue
+                    if reach is None:
+                        reach = reachable_under(fa, "floating", subj)
+                    ctx.decide(rule, f, "equality of values is decided on the values, not on their bit patterns", False if n.id in reach else True,
+                               "`%s` compares `%s`: for floating-point data 0.0 and -0.0 are different bit patterns but equal values (numpy == treats them as equal)" % (
+                                   ast.unparse(x), y), node=x, engine="KB")
+
+
+def h41_own_annotations_only(ctx, tk, rule, funcs):
+    """cls.__annotations__ lists the names annotated in that class body only; the fields of a dataclass include the inherited
+    ones (dataclasses.fields).  Building a record type from __annotations__ drops every inherited column"""
+    for f in funcs:
+        for x in ast.walk(f.node):
+            if isinstance(x, ast.Attribute) and x.attr == "__annotations__" and isinstance(x.ctx, ast.Load):
+                ctx.violated(rule, f, "the fields of a dataclass are enumerated with dataclasses.fields (inherited fields included)",
+                             "`%s` holds only the annotations written in that class body: fields inherited from a dataclass base are missing" % ast.unparse(x), node=x, engine="KB")
+
+
+def h42_view_ends_as_range_stop(ctx, tk, rule, funcs):
+    """the `ends` of a strided column view are the position after the last *visited* cell (starts + (lengths - 1) * step + 1):
+    a valid exclusive stop of range / arange / slice only for a positive step.  With a negative step the walk goes downwards and
+    the stop has to lie *below* the last cell"""
+    for f in funcs:
+        if f.cls is None or not any("col_step" in (getattr(x, "attr", ""), getattr(x, "id", "")) for x in ast.walk(f.node)):
+            continue
+        fa = ctx.fa(f)
+        for n, c in find_calls(fa, lambda c: (np_call(c, {"arange"}) or (c.a[0].k == "global" and c.a[0].a[0] in ("range", "slice"))) and len(c.a[1]) == 3):
+            stop, step = c.a[1][1], c.a[1][2]
+            if not any(x.k == "attr" and x.a[1] == "ends" for a in alts(stop) for x in walk(a)):
+                continue
+            if not any(x.k == "attr" and x.a[1] in ("col_step", "_step") for a in alts(step) for x in walk(a)):
+                continue
+            signed = False
+            for t, truth, _ in facts_at(fa, n):
+                if t.k == "cmp" and any(x.k == "attr" and x.a[1] in ("col_step", "_step") for x in walk(t)):
+                    signed = True
+            ctx.decide(rule, f, "`ends` of a strided view serves as an exclusive stop only where the step is known to be positive", True if signed else False,
+                       "`%s`: for a negative column step `ends` (last visited cell + 1) lies above the start and the range is empty or too short" % (c,), node=c.node, engine="KB")
+
+
+def h43_typed_operand_made_weak(ctx, tk, rule, funcs):
+    """x.item() / x.tolist() turn a typed 0-d array or numpy scalar into a Python scalar, which numpy (NEP 50) treats as weakly
+    typed: int8_array + np.int16(3).item() stays int8 where numpy's own result is int16.  Operands of a ufunc keep their type"""
+    for f in funcs:
+        if f.name not in ("__array_ufunc__", "__array_function__") and not f.name.startswith("_apply"):
+            continue
+        for x in ast.walk(f.node):
+            if isinstance(x, ast.Call) and isinstance(x.func, ast.Attribute) and x.func.attr in ("item", "tolist") and not x.args:
+                ctx.violated(rule, f, "ufunc operands keep their element type",
+                             "`%s` hands the operand on as a Python scalar: it no longer takes part in numpy's type promotion" % ast.unparse(x), node=x, engine="KB")
+
+
+def h44_operand_forced_into_own_dtype(ctx, tk, rule, funcs):
+    """np.asanyarray(operand, dtype=self.dtype) before a binary operation replaces numpy's promotion by a cast into this array's
+    element type: a float column added to an int array is truncated first"""
+    for f in funcs:
+        if f.name != "__array_ufunc__" or not f.params:
+            continue
+        selfn = f.params[0]
+        for x in ast.walk(f.node):
+            if isinstance(x, ast.Call) and isinstance(x.func, ast.Attribute) and x.func.attr in ("asanyarray", "asarray", "array", "astype"):
+                for kw in x.keywords:
+                    v = kw.value
+                    if kw.arg == "dtype" and isinstance(v, ast.Attribute) and v.attr == "dtype" and isinstance(v.value, ast.Name) and v.value.id == selfn:
+                        ctx.violated(rule, f, "operands of a ufunc are promoted together, none is cast into the other's element type",
+                                     "`%s` converts another operand into this array's own element type before the operation" % ast.unparse(x), node=x, engine="KB")
+
+
+def h45_handler_returns_its_operand(ctx, tk, rule, funcs):
+    """numpy's concatenate / unique / sort / *_like / copy return new objects.  An implementation that hands back one of its
+    operands (a single-element list, an array that already has the asked form) makes the result an alias: writing into it
+    changes the operand.  Allowed only where there is nothing to write (a dominating `size == 0` test)"""
+    for f in funcs:
+        handler = f.name in ("__array_function__",) or any(
+            isinstance(d, ast.Call) and isinstance(d.func, ast.Name) and d.func.id == "implements" for d in getattr(f.node, "decorator_list", []))
+        if not handler or not f.params:
+            continue
+        fa = ctx.fa(f)
+        first = 1 if f.cls is not None and f.name == "__array_function__" else 0
+        for r in fa.cfg.returns():
+            if r.ast.value is None:
+                continue
+            tm = fa.term(r.ast.value, r)
+            hits = []
+            for a in alts(tm):
+                b = a
+                while b.k == "sub" and (b.a[1].k == "const" or b.a[0].k in ("param", "sub", "item")):
+                    b = b.a[0]
+                if b.k == "item":
+                    b = b.a[0]
+                if b.k == "param" and b.a[0] in f.params[first:] and b.a[0] not in ("func", "types", "kwargs"):
+                    hits.append(a)
+            if not hits:
+                continue
+            def sizeish(x):
+                return (x.k == "attr" and x.a[1] == "size") or (x.k == "call" and call_name(x) == "len")
+            empty = any(((t.k == "cmp" and t.a[0] == "==" and is_const(t.a[2], 0) and sizeish(t.a[1]) and truth) or (sizeish(t) and not truth)) for t, truth, _ in facts_at(fa, r))
+            ctx.decide(rule, f, "a numpy function implemented for this class returns a new object, never one of its operands", True if empty else False,
+                       "`%s` is one of the operands itself: the result shares everything with it (an in-place update of the result changes the operand)" % (hits[0],),
+                       node=r.ast, engine="E3")
+
+
+def h46_stale_sibling_after_filter(ctx, tk, rule, funcs):
+    """arrays produced together (a, b = np.unique(x, return_counts=True)) or element for element from one another (h = hash(a))
+    are aligned.  After `a = a[mask]` the siblings must be cut down with the same mask before they are used again, otherwise
+    positions into the filtered arrays address the wrong entries of the unfiltered one"""
+    ALIGNED_MULTI = {"unique": ("return_counts", "return_index", "return_inverse")}
+    for f in funcs:
+        body = [st for st in ast.walk(f.node) if isinstance(st, ast.Assign)]
+        if not body:
+            continue
+        groups = []          # sets of aligned names
+        def group_of(nm):
+            for g in groups:
+                if nm in g:
+                    return g
+            return None
+        order = sorted(body, key=lambda st: (st.lineno, st.col_offset))
+        filtered = []        # (lineno, name, mask source)
+        for st in order:
+            tg = st.targets[0]
+            if isinstance(tg, ast.Tuple) and all(isinstance(e, ast.Name) for e in tg.elts) and isinstance(st.value, ast.Call):
+                fn = st.value.func
+                nm = fn.attr if isinstance(fn, ast.Attribute) else (fn.id if isinstance(fn, ast.Name) else "")
+                if nm in ALIGNED_MULTI and any(k.arg in ALIGNED_MULTI[nm] for k in st.value.keywords):
+                    names = {e.id for e in tg.elts}
+                    # a re-bound name starts a new alignment class
+                    for g in groups:
+                        g -= names
+                    groups.append(set(names))
+                continue
+            if isinstance(tg, ast.Name) and isinstance(st.value, ast.Subscript) and isinstance(st.value.value, ast.Name) and st.value.value.id == tg.id \
+                    and not isinstance(st.value.slice, (ast.Slice, ast.Constant)):
+                filtered.append((st.lineno, tg.id, ast.unparse(st.value.slice)))
+                continue
+            if isinstance(tg, ast.Name) and isinstance(st.value, ast.Call):
+                args = [a for a in st.value.args if isinstance(a, ast.Name)]
+                g = group_of(args[0].id) if len(args) == 1 and len(st.value.args) == 1 else None
+                if g is not None and tg.id not in g:
+                    g.add(tg.id)
+        for ln, nm, mask in filtered:
+            g = group_of(nm)
+            if not g:
+                continue
+            done = {n2 for l2, n2, m2 in filtered if m2 == mask}
+            for sib in sorted(g - done - {nm}):
+                later = [x for x in ast.walk(f.node) if isinstance(x, ast.Name) and x.id == sib and isinstance(x.ctx, ast.Load) and x.lineno > ln]
+                rebound = [st for st in order if st.lineno > ln and any(isinstance(x, ast.Name) and x.id == sib and isinstance(x.ctx, ast.Store) for x in ast.walk(st.targets[0]))]
+                later = [x for x in later if not any(st.lineno <= x.lineno for st in rebound)]
+                if later:
+                    ctx.violated(rule, f, "arrays that are aligned element for element are filtered together",
+                                 "`%s` was cut down with `[%s]` (line %d) but `%s`, produced together with it, is used afterwards as it was: positions into the filtered "
+                                 "arrays address other entries of it" % (nm, mask, ln, sib), node=later[0], engine="E5")
+
+
+def h50_full_like_takes_the_templates_type(ctx, tk, rule, funcs):
+    """np.full_like(template, value) has the template's dtype: a value taken from another array is cast into it (2.5 becomes 2
+    when the template is an integer index).  A result holding array values is typed by those values"""
+    for f in funcs:
+        fa = None
+        for x in ast.walk(f.node):
+            if isinstance(x, ast.Call) and isinstance(x.func, ast.Attribute) and x.func.attr == "full_like" and len(x.args) >= 2 and not any(k.arg == "dtype" for k in x.keywords):
+                v = x.args[1]
+                from_array = any(isinstance(y, ast.Subscript) or (isinstance(y, ast.Attribute) and y.attr in ("_values", "values", "_data")) for y in ast.walk(v))
+                if from_array and not isinstance(v, ast.Constant):
+                    ctx.violated(rule, f, "a result filled with array values has the element type of those values",
+                                 "`%s` has the element type of its template, the fill value `%s` is cast into it" % (ast.unparse(x), ast.unparse(v)), node=x, engine="KB")
+
+
+def h52_mask_of_unusual_width(ctx, tk, rule, funcs):
+    """an all-ones hexadecimal mask separates fields of 8, 16, 32 or 64 bits; 0xFFFFFFF (28 bits) or 0xFFFFFFFFFFFFFFF (60 bits) is a
+    digit short and silently drops the top of the field"""
+    for f in funcs:
+        for x in ast.walk(f.node):
+            if isinstance(x, ast.Constant) and isinstance(x.value, int) and not isinstance(x.value, bool) and x.value > 0xFFFF:
+                v = x.value
+                if v & (v + 1) == 0:
+                    bits = v.bit_length()
+                    if bits % 4 == 0 and bits not in (32, 64) and bits >= 20:
+                        ctx.violated(rule, f, "field masks cover whole 32- or 64-bit fields",
+                                     "the mask %s is %d bits wide: a packed 32/64-bit field loses its top %d bits" % (hex(v), bits, (32 if bits < 32 else 64) - bits), node=x, engine="KB")
+
+
+def h53_narrowed_before_clamped(ctx, tk, rule, funcs):
+    """a caller-supplied bound that is clamped into range (np.minimum / np.maximum / np.clip / np.where on it) may be arbitrarily
+    large ("open end": 1 << 40).  Converting it first to a dtype taken from the array's own geometry (the configured index
+    dtype, int32 in the narrow configuration) wraps it around before the clamp can act"""
+    for f in funcs:
+        params = set(f.params)
+        conv = {}       # name -> conversion node
+        for st in ast.walk(f.node):
+            if not isinstance(st, ast.Assign):
+                continue
+            for x in ast.walk(st.value):
+                if not isinstance(x, ast.Call):
+                    continue
+                fn = x.func
+                nm = fn.attr if isinstance(fn, ast.Attribute) else ""
+                dt = None
+                src = None
+                if nm in ("asanyarray", "asarray", "array") and x.args:
+                    src = x.args[0]
+                    dt = next((k.value for k in x.keywords if k.arg == "dtype"), x.args[1] if len(x.args) > 1 else None)
+                elif nm == "astype" and x.args:
+                    src = fn.value
+                    dt = x.args[0]
+                if dt is None or src is None:
+                    continue
+                # a dtype that is *computed* (a local / attribute), not a literal wide type
+                literal = (isinstance(dt, ast.Attribute) and isinstance(dt.value, ast.Name) and dt.value.id in ("np", "numpy")) or isinstance(dt, ast.Constant) or \
+                    (isinstance(dt, ast.Name) and dt.id in ("int", "float", "bool"))
+                if literal:
+                    continue
+                geometric = any(isinstance(y, ast.Attribute) and y.attr in ("_dtype", "dtype") for y in ast.walk(dt)) or isinstance(dt, ast.Name)
+                if not geometric:
+                    continue
+                srcnames = {y.id for y in ast.walk(src) if isinstance(y, ast.Name)}
+                loop = {g.target.id: {y.id for y in ast.walk(g.iter) if isinstance(y, ast.Name)} for g in ast.walk(st.value) if isinstance(g, ast.comprehension) and isinstance(g.target, ast.Name)}
+                feeds = set()
+                for sn in srcnames:
+                    feeds |= ({sn} | loop.get(sn, set())) & params
+                if not feeds:
+                    continue
+                for t in st.targets:
+                    for y in ast.walk(t):
+                        if isinstance(y, ast.Name) and (y.id in feeds or y.id in params):
+                            conv[y.id] = (x, st.lineno)
+        if not conv:
+            continue
+        for x in ast.walk(f.node):
+            if isinstance(x, ast.Call) and isinstance(x.func, ast.Attribute) and x.func.attr in ("minimum", "maximum", "clip", "where"):
+                used = {y.id for a in x.args for y in ast.walk(a) if isinstance(y, ast.Name)}
+                hit = [n for n in conv if n in used and conv[n][1] < x.lineno]
+                if hit:
+                    c = conv[hit[0]][0]
+                    ctx.violated(rule, f, "a caller-supplied bound is clamped before it is narrowed to the index dtype",
+                                 "`%s` converts `%s` to a dtype taken from the array's geometry before `%s` clamps it: under 32-bit indices an open-ended bound "
+                                 "(1 << 40) wraps to 0 first" % (ast.unparse(c), hit[0], ast.unparse(x)[:80]), node=c, engine="KB")
+                    break
+
+
+SORTED_ATTRS = {"starts", "ends", "_events", "events", "_starts", "_ends", "_indices", "lengths_cumsum"}
+
+
+def _known_sorted(t, d=0):
+    """boundaries kept by the data structures, and what sort / cumsum / arange / unique / flatnonzero produce, are ascending"""
+    if d > 8:
+        return False
+    for a in alts(t):
+        ok = False
+        if a.k == "attr" and a.a[1] in SORTED_ATTRS:
+            ok = True
+        elif a.k in ("sub", "upd") and (a.k == "upd" or a.a[1].k == "slice"):
+            ok = _known_sorted(a.a[0], d + 1)
+        elif a.k == "call":
+            nm = np_call(a, {"sort", "cumsum", "arange", "unique", "flatnonzero", "insert", "append", "concatenate", "nonzero"})
+            if nm in ("sort", "cumsum", "arange", "unique", "flatnonzero"):
+                ok = True
+            elif nm in ("insert", "append") and a.a[1]:
+                ok = _known_sorted(a.a[1][0], d + 1)
+            elif a.a[0].k == "attr" and a.a[0].a[1] in ("cumsum",):
+                ok = True
+            elif a.a[0].k == "attr" and a.a[0].a[1] in ("ravel", "copy", "astype", "view"):
+                ok = _known_sorted(a.a[0].a[0], d + 1)
+        elif a.k == "bin" and a.a[0] in ("+", "-") and (a.a[2].k == "const" or a.a[1].k == "const"):
+            ok = _known_sorted(a.a[1] if a.a[2].k == "const" else a.a[2], d + 1)
+        elif a.k == "item" and a.a[0].k == "call" and a.a[0].a[0].k == "attr" and a.a[0].a[0].a[1] == "nonzero":
+            ok = a.a[1] == 0
+        if not ok:
+            return False
+    return True
+
+
+def h54_binary_search_in_caller_data(ctx, tk, rule, funcs):
+    """np.searchsorted(a, v) is a binary search: it needs `a` ascending.  The library's boundaries (starts, ends, events) are;
+    an array handed in by the caller (positions to look up, keys, samples) is not, unless it was sorted here"""
+    for f in funcs:
+        if not any(isinstance(x, ast.Attribute) and x.attr == "searchsorted" for x in ast.walk(f.node)):
+            continue
+        fa = ctx.fa(f)
+        for n, c in find_calls(fa, lambda c: (np_call(c, {"searchsorted"}) and len(c.a[1]) >= 2) or (c.a[0].k == "attr" and c.a[0].a[1] == "searchsorted" and not np_call(c, {"searchsorted"}) and c.a[1])):
+            hay = c.a[1][0] if np_call(c, {"searchsorted"}) else c.a[0].a[0]
+            if _known_sorted(hay):
+                ctx.holds(rule, f, "binary searches run over ascending boundaries", node=c.node, engine="KB")
+                continue
+            from_param = [x.a[0] for a in alts(hay) for x in walk(a) if x.k == "param" and x.a[0] in f.params and not (f.cls is not None and x.a[0] == f.params[0])]
+            if from_param and "sorter" not in dict(c.a[2]):
+                ctx.violated(rule, f, "binary searches run over ascending boundaries",
+                             "`%s` searches in `%s`, which comes from the caller as it is (%s): for positions that are not ascending the answers are arbitrary" % (
+                                 c, hay, ", ".join(sorted(set(from_param)))), node=c.node, engine="KB")
+
+
 def generic(ctx, tk, rule, funcs, skip=()):
     """all deviance-form hazard rules over a property's function scope"""
     fs = [f for f in funcs if f.qual not in skip]
@@ -1205,6 +1699,7 @@ def generic(ctx, tk, rule, funcs, skip=()):
     h7_any_guarded_update(ctx, tk, rule + "/H7", fs)
     h8_forced_accumulator(ctx, tk, rule + "/H8", fs)
     h9_negative_param_slice_bound(ctx, tk, rule + "/H9", fs)
+    h9b_negative_width_slice_start(ctx, tk, rule + "/H9", fs)
     h10_counting_scatter(ctx, tk, rule + "/H10", fs)
     h11_isinstance_int(ctx, tk, rule + "/H11", fs)
     h13_int_cast_of_selector(ctx, tk, rule + "/H13", fs)
@@ -1213,6 +1708,8 @@ def generic(ctx, tk, rule, funcs, skip=()):
     h16_initial_in_extremum(ctx, tk, rule + "/H16", fs)
     h17_tolerance_as_equality(ctx, tk, rule + "/H17", fs)
     h18_cross_operand_store(ctx, tk, rule + "/H18", fs)
+    h18b_blocks_into_first_operands_type(ctx, tk, rule + "/H18", fs)
+    h18c_typed_by_the_first_operand(ctx, tk, rule + "/H18", fs)
     h20_chunk_loop_drops_tail(ctx, tk, rule + "/H20", fs)
     h22_reduceat_clamped(ctx, tk, rule + "/H22", fs)
     h23_uninitialised_result(ctx, tk, rule + "/H23", fs)
@@ -1229,6 +1726,18 @@ def generic(ctx, tk, rule, funcs, skip=()):
     h36_strict_negative_bound(ctx, tk, rule + "/H36", fs)
     h37_telescoping_needs_exact_arithmetic(ctx, tk, rule + "/H37", fs)
     h38_no_cells_is_not_no_rows(ctx, tk, rule + "/H38", fs)
+    h39_exclusive_stop_clamped_like_a_position(ctx, tk, rule + "/H39", fs)
+    h40_bit_pattern_equality(ctx, tk, rule + "/H40", fs)
+    h41_own_annotations_only(ctx, tk, rule + "/H41", fs)
+    h42_view_ends_as_range_stop(ctx, tk, rule + "/H42", fs)
+    h43_typed_operand_made_weak(ctx, tk, rule + "/H43", fs)
+    h44_operand_forced_into_own_dtype(ctx, tk, rule + "/H44", fs)
+    h45_handler_returns_its_operand(ctx, tk, rule + "/H45", fs)
+    h46_stale_sibling_after_filter(ctx, tk, rule + "/H46", fs)
+    h50_full_like_takes_the_templates_type(ctx, tk, rule + "/H50", fs)
+    h52_mask_of_unusual_width(ctx, tk, rule + "/H52", fs)
+    h53_narrowed_before_clamped(ctx, tk, rule + "/H53", fs)
+    h54_binary_search_in_caller_data(ctx, tk, rule + "/H54", fs)
     from . import wellformed as _W
     _W.report_constant_truth(ctx, tk, rule, fs)
     # H19 (raw ufunc identity stored) depends on which ufunc the caller chose: it is applied by C05 only, where the
